@@ -9,7 +9,7 @@ import pkgutil
 from vf.core import VERIF_DIR
 
 # Properties whose check is finished and quiet on the unchanged tree (maintained by hand).
-CLAIMED = ["C01", "C02", "C03", "C04", "C22", "C28", "C33", "C38", "C05", "C26", "C27", "C06", "C07", "C10", "C11", "C12", "C16", "C17", "C21", "C29", "C32", "C37", "C20", "C24", "C25", "C30", "C31", "C36", "C08", "C09", "C13", "C14", "C15", "C18", "C19", "C34", "C35"]
+CLAIMED = ["C01", "C02", "C03", "C04", "C22", "C23", "C28", "C33", "C38", "C05", "C26", "C27", "C06", "C07", "C10", "C11", "C12", "C16", "C17", "C21", "C29", "C32", "C37", "C20", "C24", "C25", "C30", "C31", "C36", "C08", "C09", "C13", "C14", "C15", "C18", "C19", "C34", "C35"]
 NOT_APPLICABLE: dict[str, str] = {}
 PENDING_REASON = "no check registered in this revision (generated-input harness for it is not built yet)"
 
